@@ -61,12 +61,18 @@ def c10_facts(year, max_paths):
                 continue
             seen.add((cls, msg))
             excs.append({"form": r["form"], "line": r["line"], "cls": cls, "msg": msg, "decisions": {k: str(v) for k, v in dec.items()}})
-    return {"year": year, "cat": catalogue_record(cat, forms, names), "refs": refs, "excs": excs}, recs, npaths
+    deps = {}
+    for r in recs:
+        if r.get("line") is None:
+            continue
+        deps["%s.%s" % (r["form"], r["line"])] = sorted(x for (k, x) in r["refs"] if k == "ln" and x.count(".") == 1)
+    return {"year": year, "cat": catalogue_record(cat, forms, names), "refs": refs, "excs": excs, "deps": deps}, recs, npaths
 
 
 def c10(tier):
     rep = common.Reporter("C10", tier)
     tot_refs = tot_paths = tot_lines = trunc = 0
+    cores = {}
     samples = []
     states = 0
     for year in (2021, 2022, 2023):
@@ -89,6 +95,8 @@ def c10(tier):
         if res.rc != 0 or res.distinct != len(facts["refs"]) + len(facts["excs"]) + 1:
             raise common.MachineryError("Catalogue.tla failed for %d (rc=%s, %d states for %d facts)\n%s" % (year, res.rc, res.distinct, len(facts["refs"]) + len(facts["excs"]), res.error_excerpt(40)))
         states += res.distinct
+        mc = re.search(r'^"C10\|core\|0\|(.*)\|"$', res.out, re.M)
+        cores[str(year)] = mc.group(1) if mc else "?"
         for m in re.finditer(r'^"C10\|(ref|exc)\|(\d+)\|(.*)\|"$', res.out, re.M):
             kind, idx, msg = m.group(1), int(m.group(2)) - 1, m.group(3)
             if kind == "ref":
@@ -105,7 +113,7 @@ def c10(tier):
             samples = facts["refs"][:3]
     cov = {"programs": tot_lines, "disagreements_checked": tot_refs, "samples": samples,
            "line_definitions": tot_lines, "paths_executed": tot_paths, "references_resolved": tot_refs, "lines_with_truncated_path_enumeration": trunc,
-           "states": states,
+           "states": states, "may_dependency_cycle_core": cores,
            "explanation": "every line definition of every form x allowed instance of the three years is force-executed along its syntactic paths; "
                           "TLC runs the solver's resolution protocol (SolverCore AddForm/ApplyFinal/LoadSpec) on every reference found"}
     return rep, "translation_validation", cov, ["paths are enumerated by forcing branch outcomes; loops take 0-2 iterations; lines with more than the path cap are enumerated depth-first up to the cap",
